@@ -7,3 +7,19 @@ COMMON_TB = [
     "the harness, the lcdriver line protocol and the ./check driver",
 ]
 
+WORLD_TB = COMMON_TB + [
+    "environment models (trusted, validated differentially): kernel mount table Lc/Model/Kernel.lean = the harness's Go simulated kernel (compared after every step through the 'table' observation); file-system tree Lc/Model/Fs.lean = the real file system below a scratch directory (compared through the 'tree' observation)",
+    "command model Lc/Model/Layers.lean: package manage statement by statement; compared with the real in-process calls (FindLayers, ProbeAllLayerstate, AddLayer, RemoveLayer, RenameLayer, RebaseLayer, Makedirs, Mount, Unmount, Shake, Chroot, InitLayercakeBase) on result class, syscall list, number of fault points passed, tree, mount table and probed layer states",
+    "Std.Do / mvcgen (core Lean) generates the verification conditions of the Hoare-style lemmas; the kernel re-checks the resulting proof terms",
+]
+
+WORLD_ASSUME = [
+    "no symlinked intermediate directories below the base path; base path is its own canonical spelling in mountinfo",
+    "mount propagation (MS_SLAVE|MS_REC) has no structural effect on the table; overlay merged views are not modelled (stat answers come from the real scratch tree)",
+    "Go map iteration order is handed to the model where observable (children order in rename)",
+]
+
+SCEN_RULE = ("scenarios: random forest (0-5 layers, names incl. Unicode and prefix-related), random layerconfigs from an import/export pool incl. weird entries, "
+             "random population of build/overlay/packages/generated directories and user files, foreign export entries, host mount-table variants (stacked /dev/shm, "
+             "separate fs, bind-mounted base path); 3-10 command steps (init/add/remove/rename/rebase/mkdirs/mount/umount/umount -all/shake/chroot/probe) with legal, illegal, "
+             "missing and very long names and pretend/force/fault:k/crash:k/user switches. distinct = distinct scenario JSON; non-trivial unless the driver marks it trivial.")
